@@ -8,15 +8,41 @@ rp = os.path.join(root, 'selftest', 'results.json')
 if os.path.exists(rp):
     for r in json.load(open(rp)): res[(r['prop'], r['name'])] = r
 claims = json.load(open(os.path.join(root, 'claims.json')))
-print('| id | functions under contract | obligations | seeds caught (round 1 + later rounds) | own mutants as expected |')
-print('|---|---|---|---|---|')
+notes = {
+ 'C01': 'table index, batched lookups (complete for every request/entry), journal and archive lookups, generational layer; **genuine defect** (8.3 no. 13)',
+ 'C02': 'manifest / journal / store compare-and-swap protocol, commit shortcut, true-up root',
+ 'C03': 'journal records, durability ghost state, replay loop incl. recovery state, data-loss check',
+ 'C04': 'index validation closure, byte accounting, read-only guards; one known finding',
+ 'C05': 'manifest replacement under the lock (Update, UpdateGCGen, LockManifest, checkers), grace prune; C05-m1 not detected (needs a map model)',
+ 'C06': 'table writer/reader contracts, archive stream writer and walker; byte-level layout lemma attempted and dropped',
+ 'C07': '**genuine defect** (8.3 no. 5)',
+ 'C09': 'walker contracts generated from a field table; **genuine defect** (8.3 no. 4)',
+ 'C10': 'parsers and accessors never panic; five `fix:` commits (8.3 no. 1-3, 12, 14), one known finding',
+ 'C12': 'thin: splitter decisions content-only, builder reset, merge re-insertion, canonical root',
+ 'C15': 'codec layout / compare / round-trip lemmas, DATETIME order, builder reset, comparator visits every field',
+ 'C16': 'adaptive inline/out-of-band encoding, collated refill step, JSON chunker forces only the final boundary',
+ 'C18': 'heights, closure construction skeleton, closure read back as a set',
+ 'C20': 'edit closures as compare-and-swap; update loop',
+ 'C21': 'combined commit + working set',
+ 'C27': 'thin: multiplicity cell, writer steps',
+ 'C28': 'thin: lock discipline + sequential core; C28-r2-m2/-m3 not detected (need a concurrent schedule)',
+ 'C38': 'thin: longest-match selections; C38-m1, C38-m3 not detected',
+ 'C39': 'thin: guard structure of Unseal (incl. path binding) and of the file handler',
+ 'C40': 'thin: value encoders against format documentation; **three genuine defects** (8.3 no. 9-11)',
+ 'C41': 'journal lock, read-only guards',
+ 'C42': 'blob ranges (incl. git normalizeRange), limiting reader, conditional writes, records sub-object',
+ 'C44': 'ref names, ancestor specs, NewCommitSpec dataflow; C44-r2-m3 not detected (regexp)',
+}
+print('| id | functions under contract | obligations | seeds caught (round 1 + later rounds) | own mutants as expected | notes |')
+print('|---|---|---|---|---|---|')
 for p in sorted(claims):
     ev = json.load(open('%s/evidence/%s.json' % (root, p)))
     c = ev['coverage']
     seeds = sorted(d for d in os.listdir(root + '/seeded') if d.startswith(p + '-'))
     caught = sum(1 for s in seeds if res.get((p, 'seeded/' + s), {}).get('got') == 'violation')
     known = sum(1 for s in seeds if (p, 'seeded/' + s) in res)
-    own = [r for (pp, n), r in res.items() if pp == p and not n.startswith('seeded/')]
+    files = sorted(f[:-5] for f in os.listdir('%s/selftest/%s' % (root, p)) if f.endswith('.diff')) if os.path.isdir('%s/selftest/%s' % (root, p)) else []
+    own = [res[(p, f)] for f in files if (p, f) in res]
     ok = sum(1 for r in own if r['ok'])
-    print('| %s | %d | %d | %d/%d%s | %s |' % (p, len(c['functions_under_contract']), c['obligations'], caught, len(seeds),
-          '' if known == len(seeds) else ' (%d not run)' % (len(seeds) - known), ('%d/%d' % (ok, len(own))) if own else '—'))
+    print('| %s | %d | %d | %d/%d%s | %s | %s |' % (p, len(c['functions_under_contract']), c['obligations'], caught, len(seeds),
+          '' if known == len(seeds) else ' (%d not run)' % (len(seeds) - known), (('%d/%d' % (ok, len(own))) + ('' if len(own) == len(files) else ' (+%d without a recorded run)' % (len(files) - len(own)))) if files else '—', notes.get(p, '')))
